@@ -91,17 +91,37 @@ static int line_to_instr(struct instr *instr_data, char *filtered_asm_str) {
   FAIL_IF_VAR(instr_data->key == INSTR_ERROR,
               "unsupported or illegal instruction: %s\n", asm_str);
   if (instr_data->imm && TYPE(instr_data->key, CONTROL_FLOW)) {
-    if (IN_RANGE(instr_data->cons, NEG80_32BIT, MAX_UNSIGNED_32BIT) ||
-        (instr_data->cons <= MAX_SIGNED_8BIT && !instr_data->keyword.is_long))
+    // the rel8 encoding, if the instruction has one, is the next table row
+    bool only_short = INSTR_TABLE[instr_data->key].encode_operand == S;
+    bool has_short =
+        !only_short &&
+        INSTR_TABLE[instr_data->key + 1].name ==
+            INSTR_TABLE[instr_data->key].name &&
+        INSTR_TABLE[instr_data->key + 1].encode_operand == S;
+    bool fits_rel8 = instr_data->cons <= MAX_SIGNED_8BIT ||
+                     instr_data->cons >= NEG80BIT ||
+                     IN_RANGE(instr_data->cons, NEG80_32BIT, MAX_UNSIGNED_32BIT);
+    if (only_short || !has_short) {
+      // no choice of encoding: a short keyword needs a rel8 form and a
+      // rel8-only instruction needs a displacement that fits
+      if ((only_short && !fits_rel8) ||
+          (!only_short && instr_data->keyword.is_short)) {
+        fprintf(stderr, "jump displacement does not fit the short form\n");
+        return EXIT_FAILURE;
+      }
+      instr_data->keyword.is_short = false;
+    } else if (IN_RANGE(instr_data->cons, NEG80_32BIT, MAX_UNSIGNED_32BIT) ||
+               (instr_data->cons <= MAX_SIGNED_8BIT &&
+                !instr_data->keyword.is_long))
       instr_data->keyword.is_short = true;
     else if (instr_data->cons > MAX_SIGNED_8BIT &&
              instr_data->keyword.is_short) {
       fprintf(stderr, "cannot set a long jump to short\n");
       return EXIT_FAILURE;
     }
+    // find the encoding for a short jump instruction if applicable
+    instr_data->key += instr_data->keyword.is_short;
   }
-  // find the encoding for a short jump instruction if applicable
-  instr_data->key += instr_data->keyword.is_short;
   // values will be determined during encoding
   instr_data->hex.reg = NONE;
   instr_data->hex.rex = NONE;
